@@ -49,6 +49,8 @@ class Recorder:
         self.monitor_errors = []
         self.calls = Counter()  # hooked callable -> calls seen (any depth)
         self.notes = Counter()
+        self.options = Counter()  # "Owner.func(param=value)" -> judged calls that used this value of an option-like parameter
+        self.option_domains = {}  # "Owner.func(param)" -> values its annotation enumerates
         self.states = set()  # abstract state hashes (history properties)
         self.transitions = set()
 
@@ -126,6 +128,8 @@ class Recorder:
             "monitor_errors": self.monitor_errors,
             "calls": dict(self.calls),
             "notes": dict(self.notes),
+            "options": dict(self.options),
+            "option_domains": dict(self.option_domains),
             "states": sorted(self.states),
             "transitions": sorted(self.transitions),
         }
@@ -191,6 +195,46 @@ def paused():
         _enabled = old
 
 
+def _literal_values(ann):
+    import typing
+
+    out = []
+    if typing.get_origin(ann) is typing.Literal:
+        out.extend(typing.get_args(ann))
+    for a in typing.get_args(ann) if typing.get_origin(ann) is not typing.Literal else ():
+        out.extend(_literal_values(a))
+    return out
+
+
+def _option_params(orig, drop_first):
+    """[(positional index, name, default)] of the parameters that select behaviour: annotated Literal[...]/bool, or defaulting to
+    a str/bool/None; their enumerated domains are registered so that evidence can say which values no judged call used."""
+    import inspect
+
+    try:
+        params = list(inspect.signature(orig).parameters.values())
+    except (TypeError, ValueError):
+        return [], {}
+    if drop_first and params:
+        params = params[1:]
+    out, domains = [], {}
+    for i, p in enumerate(params):
+        if p.kind not in (p.POSITIONAL_OR_KEYWORD, p.KEYWORD_ONLY):
+            continue
+        dom = []
+        try:
+            dom = _literal_values(p.annotation)
+        except Exception:
+            pass
+        if p.annotation is bool:
+            dom = [True, False]
+        if dom or isinstance(p.default, (str, bool)):
+            out.append((i, p.name, p.default))
+            if dom:
+                domains[p.name] = [repr(v) for v in dom]
+    return out, domains
+
+
 def attach(owner, attr, monitor, pre=None, post=None, method=True, capture_stdout=False):
     """Replace ``owner.attr`` with a monitored wrapper.
 
@@ -207,6 +251,9 @@ def attach(owner, attr, monitor, pre=None, post=None, method=True, capture_stdou
     else:
         orig = raw
     label = "%s.%s" % (getattr(owner, "__name__", str(owner)).split(".")[-1], attr)
+    optparams, optdomains = _option_params(orig, method and not is_static)
+    for pname, dom in optdomains.items():
+        REC.option_domains["%s(%s)" % (label, pname)] = dom
 
     @functools.wraps(orig)
     def wrapper(*args, **kwargs):
@@ -257,6 +304,10 @@ def attach(owner, attr, monitor, pre=None, post=None, method=True, capture_stdou
         if isinstance(ctx.exc, (KeyboardInterrupt, SystemExit)):
             raise ctx.exc
         if not skip and post is not None:
+            for i, pname, default in optparams:
+                v = ctx.args[i] if i < len(ctx.args) else kwargs.get(pname, default)
+                if v is None or isinstance(v, bool) or (isinstance(v, str) and len(v) <= 24):
+                    REC.options["%s(%s=%r)" % (label, pname, v)] += 1
             try:
                 with paused_depth():
                     post(ctx)
